@@ -54,6 +54,34 @@ def inputs_for(rows, maxlen):
     return out
 
 
+def sentences(rows, rnd, n, maxops=5):
+    """random sentences operand (op operand)* with prefix/postfix operators sprinkled in: longer than the exhaustive
+    strings, so that an operand between two operators of one row can itself contain tighter operators"""
+    pre = [c for a, names in rows if a == 'prefix' for c in names]
+    post = [c for a, names in rows if a == 'postfix' for c in names]
+    inf = [c for a, names in rows if a in ('left', 'right', 'infix') for c in names]
+    out = set()
+    for _ in range(n * 3):
+        k = rnd.randrange(2, maxops + 1)
+        s = ''
+        for i in range(k + 1):
+            if pre and rnd.random() < 0.3:
+                s += rnd.choice(pre)
+            s += '1'
+            if post and rnd.random() < 0.3:
+                s += rnd.choice(post)
+            if i < k:
+                if not inf:
+                    break
+                s += rnd.choice(inf)
+        if rnd.random() < 0.15 and inf:
+            s += rnd.choice(inf)            # truncated
+        out.add(s)
+        if len(out) >= n:
+            break
+    return sorted(out)
+
+
 def tok_sx(text):
     return [['d', int(c)] if c.isdigit() else ['o', SPELL[c]] for c in text]
 
@@ -112,6 +140,7 @@ def run(R):
             tx = inputs_for(rows, 5 if quick else 6)
             if len(tx) > 1600:
                 tx = tx[:400] + rnd.sample(tx[400:], 1200)
+            tx = tx + [t for t in sentences(rows, rnd, 250 if quick else 1500) if t not in set(tx)]
             jobs.append((gid, d, tx, {'stratum': 'token-level'}))
             info[gid] = (rows, kind)
             gid += 1
